@@ -211,8 +211,9 @@ Definition show_step (t : tstep) : string :=
   | Some r, Some m => show_step_body t ++ show_hdr (reply_header (r_type r) m)
   | _, _ => show_step_body t
   end.
-Definition show_trace (tr : list tstep) (s : dstate) : string :=
-  join " " (map show_step tr) ++ " | " ++ show_table (tbl s).
+(* the table part starts with the operating mode in force (Handler.Mode()) *)
+Definition show_trace (c : cfg) (tr : list tstep) (s : dstate) : string :=
+  join " " (map show_step tr) ++ " | m" ++ dec_of_N (c_mode c) ++ ";" ++ show_table (tbl s).
 
 (* ---------------------------------------------------------------- *)
 (* Constants of the Go source the model hard-codes, by the source's identifier: compared on every run with
